@@ -9,6 +9,31 @@ use std::io::Write;
 use std::panic::{catch_unwind, AssertUnwindSafe};
 
 mod queue_h;
+mod vec_h;
+mod str_h;
+mod slotmap_h;
+mod flatmap_h;
+
+use core::alloc::Layout;
+use core::ptr::NonNull;
+use iceoryx2_bb_elementary_traits::allocator::{Allocate, AllocationError, Deallocate};
+
+/// heap allocator for the Polymorphic* containers (zero-sized requests get a dangling pointer)
+pub struct HeapAlloc;
+pub static HEAP: HeapAlloc = HeapAlloc;
+impl Allocate<NonNull<u8>> for HeapAlloc {
+    fn allocate(&self, layout: Layout) -> Result<NonNull<u8>, AllocationError> {
+        if layout.size() == 0 { return Ok(unsafe { NonNull::new_unchecked(layout.align() as *mut u8) }); }
+        let p = unsafe { std::alloc::alloc(layout) };
+        if !p.is_null() { unsafe { core::ptr::write_bytes(p, 0xAA, layout.size()) }; } // fresh memory is not zeroed
+        NonNull::new(p).ok_or(AllocationError::OutOfMemory)
+    }
+}
+impl Deallocate<NonNull<u8>> for HeapAlloc {
+    unsafe fn deallocate(&self, ptr: NonNull<u8>, layout: Layout) {
+        if layout.size() != 0 { unsafe { std::alloc::dealloc(ptr.as_ptr(), layout) } }
+    }
+}
 
 thread_local! {
     pub static DROPS: RefCell<Vec<u64>> = RefCell::new(Vec::new());
@@ -16,6 +41,8 @@ thread_local! {
 
 #[derive(Debug)]
 pub struct El(pub u64);
+/// a clone carries the same id: the drop log is compared as a list with multiplicities
+impl Clone for El { fn clone(&self) -> Self { El(self.0) } }
 impl Drop for El {
     fn drop(&mut self) {
         DROPS.with(|d| d.borrow_mut().push(self.0));
@@ -80,6 +107,12 @@ fn main() {
     let mut out = Out { w: std::io::BufWriter::with_capacity(1 << 20, std::io::stdout()) };
     match a[2].as_str() {
         "queue" => queue_h::run(&args, &mut out),
+        "vec" => vec_h::run(&args, &mut out),
+        "str" => str_h::run(&args, &mut out, false),
+        "strz" => str_h::run(&args, &mut out, true),
+        "slotmap" => slotmap_h::run(&args, &mut out),
+        "flatmap" => flatmap_h::run(&args, &mut out),
+        "cap0" => { flatmap_h::observe_cap0(&mut out); vec_h::observe_cap0(&mut out); str_h::observe_cap0(&mut out); slotmap_h::observe_cap0(&mut out); }
         c => { eprintln!("unknown container {}", c); std::process::exit(2); }
     }
     let _ = out.w.flush();
